@@ -3,7 +3,7 @@
    Only property theorems live here: each is closed by [exact], pinned by
    [Check ... : statement] and followed by [Print Assumptions]. *)
 From Coq Require Import List NArith ZArith.
-From Echo Require Import Base.Bytes Model.Cbor Proofs.CborFloatProofs Proofs.CborProofs.
+From Echo Require Import Base.Bytes Model.Cbor Model.Fmt Proofs.CborFloatProofs Proofs.CborProofs Proofs.FmtProofs.
 Import ListNotations.
 Open Scope N_scope.
 
@@ -191,3 +191,55 @@ Example noncanonical_classes_rejected :
   decode [0xc0; 0x00] = Err ETag /\ decode [0x9f; 0xff] = Err EIndefinite /\ decode [0x00; 0x00] = Err ETrailing /\
   decode [0x61; 0xff] = Err EUtf8 /\ decode [0xf8; 0x20] = Err ESimple /\ decode [0x1c] = Err EBadInfo.
 Proof. vm_compute. repeat split. Qed.
+
+(* ================================================================== fixed little-endian record codecs
+   Generic theorems over format descriptors (Model/Fmt.v), proved once by induction on the
+   descriptor; every transcribed record descriptor is an instance via [record_descriptors_wf]. *)
+Theorem fmt_roundtrip : forall f v b, wf_fmt f = true -> enc_fmt f v = Some b -> dec_top f b = Some v.
+Proof. exact fmt_roundtrip_top. Qed.
+Check fmt_roundtrip : forall f v b, wf_fmt f = true -> enc_fmt f v = Some b -> dec_top f b = Some v.
+Print Assumptions fmt_roundtrip.
+
+Theorem fmt_canonical : forall f b v, wf_bytes b = true -> dec_top f b = Some v -> enc_fmt f v = Some b.
+Proof. exact fmt_canonical_top. Qed.
+Check fmt_canonical : forall f b v, wf_bytes b = true -> dec_top f b = Some v -> enc_fmt f v = Some b.
+Print Assumptions fmt_canonical.
+
+Theorem fmt_encoding_injective : forall f v1 v2 b,
+  wf_fmt f = true -> enc_fmt f v1 = Some b -> enc_fmt f v2 = Some b -> v1 = v2.
+Proof. exact fmt_enc_injective. Qed.
+Check fmt_encoding_injective : forall f v1 v2 b,
+  wf_fmt f = true -> enc_fmt f v1 = Some b -> enc_fmt f v2 = Some b -> v1 = v2.
+Print Assumptions fmt_encoding_injective.
+
+Theorem fmt_reject_trailing : forall f b v x xs,
+  wf_fmt f = true -> wf_bytes b = true -> dec_top f b = Some v -> dec_top f (b ++ x :: xs) = None.
+Proof. exact fmt_trailing_rejected. Qed.
+Check fmt_reject_trailing : forall f b v x xs,
+  wf_fmt f = true -> wf_bytes b = true -> dec_top f b = Some v -> dec_top f (b ++ x :: xs) = None.
+Print Assumptions fmt_reject_trailing.
+
+Theorem record_descriptors_wf : forallb wf_fmt all_descriptors = true.
+Proof. exact all_descriptors_wf. Qed.
+Check record_descriptors_wf : forallb wf_fmt all_descriptors = true.
+Print Assumptions record_descriptors_wf.
+
+(* DESIGN section 6 F8, the code as it is: StrandForkRecord::from_payload_bytes sorts the writer heads
+   it read, so accepted => canonical is FALSE for this record (witness replayed on the
+   implementation by the check: case `rec=14` with heads in descending order). *)
+Theorem strand_fork_canonical_refuted :
+  exists b v, wf_bytes b = true /\ strand_fork_dec b = Some v /\ strand_fork_enc v <> Some b.
+Proof. exact strand_fork_refuted. Qed.
+Check strand_fork_canonical_refuted :
+  exists b v, wf_bytes b = true /\ strand_fork_dec b = Some v /\ strand_fork_enc v <> Some b.
+Print Assumptions strand_fork_canonical_refuted.
+
+Example fmt_nonvacuous :
+  let v := XSeq [XRaw (repeat 7 32); XRaw (repeat 9 32); XSome (XRaw (repeat 1 32)); XRaw (repeat 0 32)] in
+  wf_fmt d_submission_acceptance = true /\
+  exists b, enc_fmt d_submission_acceptance v = Some b /\ length b = 129%nat /\ dec_top d_submission_acceptance b = Some v /\
+            dec_top d_submission_acceptance (b ++ [0]) = None /\
+            dec_top d_topology_braid_event b = None.
+Proof.
+  cbv zeta. split; [reflexivity|]. eexists. split; [vm_compute; reflexivity|]. repeat split; vm_compute; reflexivity.
+Qed.
